@@ -558,9 +558,7 @@ func (in *Interp) execNumFor(fr *Frame, st *NumForStmt) ctl {
 	if !ok3 {
 		in.fault("'for' step must be a number")
 	}
-	if step == 0 {
-		unspecified("numeric for with step 0")
-	}
+	// (a step of 0 or -0 is decided by the manual's equivalent code: the loop runs while limit <= var)
 	if step != step || start != start || limit != limit {
 		unspecified("numeric for with NaN")
 	}
@@ -571,7 +569,7 @@ func (in *Interp) execNumFor(fr *Frame, st *NumForStmt) ctl {
 	for {
 		in.step()
 		idx += step
-		if step > 0 && !(idx <= limit) || step < 0 && !(idx >= limit) {
+		if step > 0 && !(idx <= limit) || step <= 0 && !(idx >= limit) {
 			break
 		}
 		fr.slots[st.Slot] = &Cell{V: idx}
